@@ -1152,11 +1152,6 @@ def _w_csv(job):
     return n_files, n_cells, feats_seen, fails
 
 
-def _model_table_from_csv_model(model):
-    """CSV cell models -> table model usable by _m_* over integer probes (bool cells behave as 0/1)."""
-    return model
-
-
 def _part_csv(rep, tier, seed):
     ct = _load()
     thorough = tier == "thorough"
